@@ -977,4 +977,209 @@ theorem range_iter_yields_abstract_ranges' (s : CBitSet) (hs : CInv s) :
 
 end SetLevel
 
+/-! ### (C) `BitPage::iter` / `BitSet::iter` -/
+
+private theorem ic_getD_lt {es : List Nat} (h : ∀ e ∈ es, e < 2 ^ 64) (i : Nat) : es.getD i 0 < 2 ^ 64 := by
+  rw [List.getD_eq_getElem?_getD]
+  cases hi : es[i]? with
+  | none => exact Nat.two_pow_pos 64
+  | some x => exact h x (List.mem_of_getElem? hi)
+
+private theorem ic_pack_elem (es : List Nat) (h : ∀ e ∈ es, e < 2 ^ 64) (i : Nat) :
+    pack es / 2 ^ (i * 64) % 2 ^ 64 = es.getD i 0 := by
+  apply Nat.eq_of_testBit_eq
+  intro j
+  rw [Nat.testBit_mod_two_pow, Nat.testBit_div_two_pow, ic_testBit_pack es h]
+  by_cases hj : j < 64
+  · have h0 : (j + i * 64) / 64 = i := by omega
+    have h1 : (j + i * 64) % 64 = j := by omega
+    simp [hj, h0, h1]
+  · have : (es.getD i 0).testBit j = false :=
+      Nat.testBit_lt_two_pow (Nat.lt_of_lt_of_le (ic_getD_lt h i) (Nat.pow_le_pow_right (by omega) (by omega)))
+    rw [this]; simp [hj]
+
+theorem pageMembers_blocks {p : CPage} (hp : CPageOk p) :
+    pageMembers p.abs.bits =
+      (List.range 8).flatMap (fun i => elemMembers (i * 64) (p.elems.getD i 0)) := by
+  unfold pageMembers
+  congr 1
+  funext e
+  rw [show p.abs.bits = pack p.elems from rfl, ic_pack_elem _ hp.2.1]
+
+/-- one element: the items of `Iter::from(a, f)` placed at block `B` -/
+theorem elemIter_block (a f B : Nat) :
+    (elemIterFrom a f).map (fun idx => B * 64 + idx) =
+      (elemMembers (B * 64) a).filter (fun x => decide (f ≤ x - B * 64)) := by
+  rw [elemMembers_eq, List.filter_map, List.filter_filter]
+  unfold elemIterFrom
+  have hq : ∀ i, (decide (f ≤ i) && a.testBit i) =
+      (((fun x => decide (f ≤ x - B * 64)) ∘ fun x => x + B * 64) i && a.testBit i) := by
+    intro i
+    simp only [Function.comp]
+    rw [show i + B * 64 - B * 64 = i by omega]
+  rw [List.filter_congr (fun i _ => hq i)]
+  apply List.map_congr_left
+  intro i _
+  omega
+
+/-- the `enumerate().filter(elem != 0).flat_map(..)` skeleton of `BitPage::iter` / `iter_after`
+over a suffix of the storage: block by block, zero elements contribute nothing either way -/
+theorem elemScan (fr : Nat → Nat) (k : Nat) : ∀ (es : List Nat) (n : Nat),
+    ((es.zipIdx n).filter (fun ei => ei.1 != 0)).flatMap
+        (fun ei => (elemIterFrom ei.1 (fr (ei.2 + k))).map (fun idx => (ei.2 + k) * 64 + idx)) =
+      (List.range es.length).flatMap (fun j =>
+        (elemMembers ((n + j + k) * 64) (es.getD j 0)).filter
+          (fun x => decide (fr (n + j + k) ≤ x - (n + j + k) * 64))) := by
+  intro es
+  induction es with
+  | nil => intro n; rfl
+  | cons a es ih =>
+    intro n
+    rw [List.zipIdx_cons, List.length_cons, List.range_succ_eq_map, List.flatMap_cons,
+      List.flatMap_map]
+    have htail : (List.range es.length).flatMap (fun j =>
+          (elemMembers ((n + j.succ + k) * 64) ((a :: es).getD j.succ 0)).filter
+            (fun x => decide (fr (n + j.succ + k) ≤ x - (n + j.succ + k) * 64))) =
+        (List.range es.length).flatMap (fun j =>
+          (elemMembers ((n + 1 + j + k) * 64) (es.getD j 0)).filter
+            (fun x => decide (fr (n + 1 + j + k) ≤ x - (n + 1 + j + k) * 64))) := by
+      congr 1
+      funext j
+      simp only [List.getD_cons_succ]
+      have : n + j.succ + k = n + 1 + j + k := by omega
+      rw [this]
+    rw [htail, ← ih (n + 1)]
+    simp only [List.getD_cons_zero, Nat.add_zero]
+    by_cases ha : a = 0
+    · subst ha
+      have : elemMembers ((n + k) * 64) 0 = [] := by simp [elemMembers]
+      rw [this]
+      simp [List.filter_cons]
+    · have hne : ((a, n).1 != 0) = true := by simpa using ha
+      rw [List.filter_cons, if_pos hne, List.flatMap_cons, elemIter_block]
+
+/-- `BitPage::iter` yields the members of the page, ascending -/
+theorem iterL_eq {p : CPage} (hp : CPageOk p) : p.iterL = pageMembers p.abs.bits := by
+  rw [pageMembers_blocks hp]
+  have h := elemScan (fun _ => 0) 0 p.elems 0
+  rw [hp.1] at h
+  have e : ∀ l : List Nat, l.filter (fun _ => true) = l :=
+    fun l => List.filter_eq_self.2 (fun _ _ => rfl)
+  simp only [Nat.zero_le, decide_true, Nat.zero_add, Nat.add_zero, e] at h
+  exact h
+
+private theorem filterMap_eq_map_of {α β : Type} {f : α → Option β} {g : α → β} {l : List α}
+    (h : ∀ x ∈ l, f x = some (g x)) : l.filterMap f = l.map g := by
+  induction l with
+  | nil => rfl
+  | cons a l ih =>
+    rw [List.filterMap_cons, h a List.mem_cons_self, List.map_cons,
+      ih (fun x hx => h x (List.mem_cons_of_mem _ hx))]
+
+theorem iterPages_eq {s : CBitSet} (hs : CInv s) : s.iterPages = cview s.pageMap s.pages := by
+  unfold CBitSet.iterPages cview
+  apply filterMap_eq_map_of
+  intro e he
+  have hlt := hs.idxLt e he
+  simp [List.getElem?_eq_getElem hlt, List.getD_eq_getElem?_getD]
+
+/-- `iter_non_empty_pages().flat_map(page.iter() + major_start)` over a `(major, page)` list -/
+def viewIter (V : List (Nat × CPage)) : List Nat :=
+  (V.filter (fun mp => !mp.2.isEmpty)).flatMap (fun mp => mp.2.iterL.map (fun v => majorStart mp.1 + v))
+
+/-- `BitSet.members` of the abstraction of a `(major, page)` list -/
+def viewMembersNE (V : List (Nat × CPage)) : List Nat :=
+  (V.map (fun kp => (kp.1, kp.2.abs))).flatMap (fun kp =>
+    if kp.2.len = 0 then [] else (pageMembers kp.2.bits).map (· + majorStart kp.1))
+
+theorem viewIter_eq (V : List (Nat × CPage)) (hok : ∀ kp ∈ V, CPageOk kp.2) :
+    viewIter V = viewMembersNE V := by
+  induction V with
+  | nil => rfl
+  | cons kp V ih =>
+    have ih' := ih (fun q hq => hok q (List.mem_cons_of_mem _ hq))
+    unfold viewIter viewMembersNE at *
+    rw [List.filter_cons, List.map_cons, List.flatMap_cons, ← ih']
+    by_cases hl : kp.2.len = 0
+    · have : (!kp.2.isEmpty) = false := by simp [CPage.isEmpty, hl]
+      simp only [this, CPage.abs, hl, if_true, List.nil_append]
+      rfl
+    · have : (!kp.2.isEmpty) = true := by simp [CPage.isEmpty, hl]
+      rw [if_pos this, List.flatMap_cons]
+      congr 1
+      simp only [CPage.abs, hl, if_false]
+      rw [iterL_eq (hok kp List.mem_cons_self)]
+      apply List.map_congr_left
+      intro x _
+      omega
+
+theorem abs_members (s : CBitSet) : s.abs.members = viewMembersNE (cview s.pageMap s.pages) := rfl
+
+theorem view_all_ok {s : CBitSet} (hs : CInv s) : ∀ kp ∈ cview s.pageMap s.pages, CPageOk kp.2 := by
+  intro kp hkp
+  obtain ⟨i, hi⟩ := List.getElem?_of_mem hkp
+  exact view_ok hs hi
+
+/-- (C) `BitSet::iter`, front to back, yields the abstract members -/
+theorem iter_eq_members {s : CBitSet} (hs : CInv s) : s.iter = s.abs.members := by
+  rw [abs_members, ← viewIter_eq _ (view_all_ok hs)]
+  unfold CBitSet.iter CBitSet.iterNonEmptyPages viewIter
+  rw [iterPages_eq hs]
+
+/-! ### the double-ended deque -/
+
+theorem deIter_run_spec : ∀ (sched : List Bool) (l : List Nat),
+    (DEIter.run sched ⟨l⟩).1 ++ (DEIter.run sched ⟨l⟩).2.2.rest ++ (DEIter.run sched ⟨l⟩).2.1.reverse = l := by
+  intro sched
+  induction sched with
+  | nil => intro l; simp [DEIter.run]
+  | cons b sched ih =>
+    intro l
+    cases b with
+    | false =>
+      cases l with
+      | nil =>
+        have := ih []
+        simp only [DEIter.run, DEIter.next, Option.toList, List.nil_append] at *
+        exact this
+      | cons x xs =>
+        have := ih xs
+        simp only [DEIter.run, DEIter.next, Option.toList, List.cons_append, List.nil_append]
+        rw [this]
+    | true =>
+      rcases List.eq_nil_or_concat l with rfl | ⟨l', x, rfl⟩
+      · have := ih []
+        simp only [DEIter.run, DEIter.nextBack, List.getLast?_nil, Option.toList, List.nil_append] at *
+        exact this
+      · have := ih l'
+        rw [List.concat_eq_append]
+        have hl : (l' ++ [x]).getLast? = some x := by simp
+        have hd : (l' ++ [x]).dropLast = l' := by simp
+        simp only [DEIter.run, DEIter.nextBack, hl, hd, Option.toList, List.reverse_append,
+          List.reverse_cons, List.reverse_nil, List.nil_append]
+        rw [← List.append_assoc, this]
+
+theorem deIter_rev : ∀ (n : Nat) (l : List Nat), l.length ≤ n →
+    (DEIter.run (List.replicate n true) ⟨l⟩).2.1 = l.reverse := by
+  intro n
+  induction n with
+  | zero =>
+    intro l h
+    have : l = [] := List.eq_nil_of_length_eq_zero (by omega)
+    subst this; rfl
+  | succ n ih =>
+    intro l h
+    rcases List.eq_nil_or_concat l with rfl | ⟨l', x, rfl⟩
+    · have := ih [] (by simp)
+      simp only [List.replicate_succ, DEIter.run, DEIter.nextBack, List.getLast?_nil, Option.toList,
+        List.nil_append] at *
+      exact this
+    · have := ih l' (by simp at h; omega)
+      rw [List.concat_eq_append]
+      have hl : (l' ++ [x]).getLast? = some x := by simp
+      have hd : (l' ++ [x]).dropLast = l' := by simp
+      simp only [List.replicate_succ, DEIter.run, DEIter.nextBack, hl, hd, Option.toList,
+        List.reverse_append, List.reverse_cons, List.reverse_nil, List.nil_append]
+      rw [this]
+
 end FontVerif.IntSet
